@@ -532,8 +532,11 @@ def trans(name):
         for (arg, val) in table:
             CTX.constrain_aux(z3.Implies(arg == zt, val == v))
         table.append((zt, v))
-        CTX.cache.setdefault("trans_apps", []).append((name, zt, v))
-        return SReal(v)
+        r = SReal(v)
+        # remember the application so that terms can be differentiated (symx.diff)
+        from . import poly as _P
+        CTX.cache.setdefault("trans_apps", {})[_P.atom_for_const(v)] = (name, d)
+        return r
 
     def f(a):
         return _map(a, one, "float")
